@@ -739,10 +739,13 @@ func run(r *lib.Run) {
 		for i := 0; i < r.Pick(2, 10); i++ {
 			stopRacesGossip(r, 900+i)
 		}
+		for i, l := range []int{0, 1, 3, 50} { // one at a time: real sockets
+			assembledNode(r, i, l)
+		}
 	}()
 	pnode.Quiet()
 	r.SetRule("fault enumeration over the exit paths of an offer. Outbound (node offers to a scripted peer, permit taken through the node's own controller): peer declines, empty reply, wrong code, undecodable accept, wrong verdict count, accepted+served, accepted then connection closed at once, accepted but nobody listens on the announced id, silent peer, offers that cannot be encoded (65 keys, 3000-byte key; also through gossip), slot still taken while every accepted transfer is pending; " +
-		"gossip rounds to 8 peers with mixed outcomes (bound on simultaneously open exchanges), gossip beyond the offer-queue capacity with every worker blocked, Stop() with offers queued and in progress. Inbound (scripted peers offer, all slots taken at once by different peers): success, garbage stream, wrong item count, dialled and closed, never dialled, limit 0. Limits 0, 1, 2, 50 (+1400 / 300 for the queue and stop paths). " +
+		"gossip rounds to 8 peers with mixed outcomes (bound on simultaneously open exchanges), gossip beyond the offer-queue capacity with every worker blocked, Stop() with offers queued and in progress. Inbound (scripted peers offer, all slots taken at once by different peers): success, garbage stream, wrong item count, dialled and closed, never dialled, limit 0. Limits 0, 1, 2, 50 (+1400 / 300 for the queue and stop paths). Gossip calls that race with and follow Stop(). A node assembled and started by portal.NewNode (loopback sockets) for configured limits 0, 1, 3, 50: slots obtainable through its own uTP service. " +
 		"distinct_nontrivial = distinct (direction, path, limit) whose quiescent slot count was measured")
 	r.Assume("quiescence = the scenario's own activity has ceased and the code's own timeouts (15 s accept/dial, 60 s read/write; uTP idle timeout shortened to 4 s through the verif config) have had about twice their sum; not restored within the watchdog is a leak")
 	r.Assume("slots are counted by acquiring through the exported GetInboundPermit/GetOutboundPermit until refusal and releasing again")
